@@ -97,3 +97,4 @@ def run(ctx):
     stream.interrupted_safe_fill(ctx, P)
     stream.r_pair(ctx, P)
     stream.wrapper_finishers(ctx, P)
+    stream.stage_buffer_advanced_by_what_was_copied(ctx, P)
